@@ -287,3 +287,51 @@ func eventsBefore(worker *ssa.Function, ev an.Event, pred func(ssa.CallInstructi
 	}
 	return out
 }
+
+// Fields of testing.T by role (unexported names may change):
+//   stack    — the []func() field (cleanups registered on the handle)
+//   failed   — the atomic.Bool the exported Failed() loads
+//   tdFailed — the atomic.Bool the exported TeardownFailed() loads
+//   tearing  — the plain bool field (routes failures while cleanups run)
+type tFields struct{ stack, failed, tdFailed, tearing *types.Var }
+
+func handleFields(c *core.Ctx) tFields {
+	var f tFields
+	st, _ := c.Named("pkg/f1/testing", "T").Underlying().(*types.Struct)
+	if st == nil {
+		panic(core.AnchorError{What: "pkg/f1/testing.T"})
+	}
+	for i := 0; i < st.NumFields(); i++ {
+		v := st.Field(i)
+		switch t := v.Type().Underlying().(type) {
+		case *types.Slice:
+			if sig, ok := t.Elem().Underlying().(*types.Signature); ok && sig.Params().Len() == 0 && sig.Results().Len() == 0 {
+				if f.stack != nil {
+					panic(core.AnchorError{What: "testing.T has more than one []func() field: which is the cleanup stack?"})
+				}
+				f.stack = v
+			}
+		case *types.Basic:
+			if t.Kind() == types.Bool {
+				if f.tearing != nil {
+					panic(core.AnchorError{What: "testing.T has more than one plain bool field: which routes failures during teardown?"})
+				}
+				f.tearing = v
+			}
+		}
+	}
+	loaded := func(method string) *types.Var {
+		fn := c.MustFn("pkg/f1/testing", "T."+method)
+		for _, op := range an.AtomicOps([]*ssa.Function{fn}) {
+			if op.Op == "Load" {
+				return op.Field
+			}
+		}
+		panic(core.AnchorError{What: "the atomic flag loaded by testing.T." + method})
+	}
+	f.failed, f.tdFailed = loaded("Failed"), loaded("TeardownFailed")
+	if f.stack == nil || f.tearing == nil {
+		panic(core.AnchorError{What: "cleanup stack / tearing-down flag of testing.T"})
+	}
+	return f
+}
